@@ -487,15 +487,23 @@ impl Runner {
                     return "bad-op".into();
                 };
                 let n: usize = a["n"].parse().unwrap();
+                let k: usize = a.get("pre").and_then(|v| v.parse().ok()).unwrap_or(0);
                 self.with_series(|bs, p| {
-                    let mut ts = Vec::new();
-                    let mut d = Vec::new();
+                    // `pre=k`: k items are already in the caller's vectors
+                    let mut ts: Vec<u64> = (0..k as u64).map(|i| 7_000_000 + i).collect();
                     let mut r = Lin { p };
+                    let mut d = Vec::new();
+                    for _ in 0..k {
+                        d.push(r.decode_payload(&vec![0u8; p]));
+                    }
                     match bs.read_n(n, (s, e), &mut r, &mut ts, &mut d, false) {
                         Ok(()) => {
+                            if ts.len() < k || (0..k).any(|i| ts[i] != 7_000_000 + i as u64) {
+                                return "err caller-items-changed".to_string();
+                            }
                             let enc: Vec<Vec<u8>> =
-                                d.iter().map(|x| r.encode_item(x)).collect();
-                            fmt_entries(&ts, &enc)
+                                d[k..].iter().map(|x| r.encode_item(x)).collect();
+                            fmt_entries(&ts[k..], &enc)
                         }
                         Err(er) => format!("err {}", class_of(&format!("{er:?}"))),
                     }
